@@ -47,11 +47,18 @@ func entName(v any) string {
 	return reflect.TypeOf(v).String()
 }
 
+// Explicit entity type names that contain the composite-key separator; the first one also has a registered
+// entity type as its prefix up to the separator.
+var (
+	nameAdmin     = entName(SUser{}) + "/admin"
+	nameShopOrder = "shop/order"
+)
+
 var stateKeys = []string{"k1", "k2", "a/b", "user/1/x", "/", "k1/"}
 
 type C18Msg struct {
 	Op     string `json:"op"`     // insert update delete reset snap-start snap-end
-	Entity int    `json:"entity"` // 0 SUser 1 SOrder 2 SNamed 3 SGhost (never registered)
+	Entity int    `json:"entity"` // 0 SUser 1 SOrder 2 SNamed 3 SGhost (never registered) 4 SUser as "<SUser's name>/admin" 5 SOrder as "shop/order"
 	Key    int    `json:"key"`
 	V      int    `json:"v"`
 }
@@ -70,7 +77,7 @@ func genC18(rt *rapid.T) core.Scenario {
 	n := rapid.IntRange(1, 40).Draw(rt, "nMsgs")
 	for i := 0; i < n; i++ {
 		m := C18Msg{Op: rapid.SampledFrom([]string{"insert", "insert", "update", "update", "delete", "delete", "reset", "snap-start", "snap-end"}).Draw(rt, "op"),
-			Entity: rapid.SampledFrom([]int{0, 0, 1, 1, 2, 3}).Draw(rt, "entity"), Key: rapid.IntRange(0, len(stateKeys)-1).Draw(rt, "key"), V: rapid.IntRange(0, 9).Draw(rt, "v")}
+			Entity: rapid.SampledFrom([]int{0, 0, 1, 1, 2, 3, 4, 5}).Draw(rt, "entity"), Key: rapid.IntRange(0, len(stateKeys)-1).Draw(rt, "key"), V: rapid.IntRange(0, 9).Draw(rt, "v")}
 		sc.Msgs = append(sc.Msgs, m)
 	}
 	sc.Strict = rapid.IntRange(0, 3).Draw(rt, "strict") == 3
@@ -147,6 +154,24 @@ func buildMsg(m C18Msg) (any, error) {
 		default:
 			cm, err = state.Delete[SNamed](key)
 		}
+	case 4:
+		switch m.Op {
+		case "insert":
+			cm, err = state.Insert(key, sUser(m.V), state.WithEntityType(nameAdmin))
+		case "update":
+			cm, err = state.Update(key, sUser(m.V), state.WithEntityType(nameAdmin))
+		default:
+			cm, err = state.Delete[SUser](key, state.WithEntityType(nameAdmin))
+		}
+	case 5:
+		switch m.Op {
+		case "insert":
+			cm, err = state.Insert(key, sOrder(m.V), state.WithEntityType(nameShopOrder))
+		case "update":
+			cm, err = state.Update(key, sOrder(m.V), state.WithEntityType(nameShopOrder))
+		default:
+			cm, err = state.Delete[SOrder](key, state.WithEntityType(nameShopOrder))
+		}
 	default:
 		switch m.Op {
 		case "delete":
@@ -177,6 +202,8 @@ type c18Mat struct {
 	named    *state.TypedCollection[SNamed]
 	tags     *state.TypedCollection[[]string]       // unnamed Go types as entities
 	counts   *state.TypedCollection[map[string]int] // (their entity type names are "[]string" and "map[string]int")
+	admins   *state.TypedCollection[SUser]  // explicit entity type names containing the key separator
+	shop     *state.TypedCollection[SOrder] //
 	resets   int
 	snaps    []bool
 	onErrors int
@@ -203,6 +230,10 @@ func newC18Mat(strict bool) *c18Mat {
 	state.RegisterCollection(c.m, c.named)
 	state.RegisterCollection(c.m, c.tags)
 	state.RegisterCollection(c.m, c.counts)
+	c.admins = state.NewTypedCollectionWithType[SUser](state.NewMemoryStore[SUser](), nameAdmin)
+	c.shop = state.NewTypedCollectionWithType[SOrder](state.NewMemoryStore[SOrder](), nameShopOrder)
+	state.RegisterCollection(c.m, c.admins)
+	state.RegisterCollection(c.m, c.shop)
 	return c
 }
 
@@ -217,6 +248,12 @@ func (c *c18Mat) snapshot() []string {
 	}
 	for k, v := range c.named.All() {
 		out = append(out, "named|"+k+"="+string(mustJSON(v)))
+	}
+	for k, v := range c.admins.All() {
+		out = append(out, "admin|"+k+"="+string(mustJSON(v)))
+	}
+	for k, v := range c.shop.All() {
+		out = append(out, "shop|"+k+"="+string(mustJSON(v)))
 	}
 	for k, v := range c.tags.All() {
 		out = append(out, "tags|"+k+"="+string(mustJSON(v)))
@@ -236,8 +273,8 @@ type c18Fold struct {
 }
 
 func (f *c18Fold) apply(m C18Msg) {
-	coll := []string{"user", "order", "named"}
-	types := []string{entName(SUser{}), entName(SOrder{}), entName(SNamed{})}
+	coll := []string{"user", "order", "named", "", "admin", "shop"}
+	types := []string{entName(SUser{}), entName(SOrder{}), entName(SNamed{}), "", nameAdmin, nameShopOrder}
 	switch m.Op {
 	case "reset":
 		f.state = map[string]string{}
@@ -260,9 +297,9 @@ func (f *c18Fold) apply(m C18Msg) {
 	default:
 		var v any
 		switch m.Entity {
-		case 0:
+		case 0, 4:
 			v = sUser(m.V)
-		case 1:
+		case 1, 5:
 			v = sOrder(m.V)
 		default:
 			v = SNamed{N: m.V}
